@@ -275,7 +275,84 @@ func (w *World) binop(op token.Token, t types.Type, x, y Value) Value {
 	panic(w.unsupported("binop %v on %v", op, t))
 }
 
+// scaledTerm records that a term is base*k for a duration made by the time model (milliseconds * 1e6); comparing
+// it with a constant is then done on the base, which spares the solver a 64-bit multiplication. Sound because the
+// instants of the time model lie between 2001 and 2100, so such products never overflow.
+type scaledTerm struct {
+	base Value
+	k    int64
+}
+
+func (w *World) scale(base Value, k int64) Value {
+	v := w.binop(token.MUL, i64, base, k)
+	if t, ok := v.(*Term); ok {
+		sc, _ := w.userData["scaled"].(map[*Term]scaledTerm)
+		if sc == nil {
+			sc = map[*Term]scaledTerm{}
+			w.userData["scaled"] = sc
+		}
+		sc[t] = scaledTerm{base, k}
+	}
+	return v
+}
+
+func floorDiv(a, k int64) int64 {
+	q := a / k
+	if a%k != 0 && (a < 0) != (k < 0) {
+		q--
+	}
+	return q
+}
+
+// scaledCompare rewrites (base*k op c) to a comparison of base with a constant, k > 0.
+func (w *World) scaledCompare(op token.Token, ii intInfo, x, y Value) (Value, bool) {
+	sc, _ := w.userData["scaled"].(map[*Term]scaledTerm)
+	if sc == nil || !ii.signed || ii.w != 64 {
+		return nil, false
+	}
+	if xt, ok := x.(*Term); ok {
+		if s, ok := sc[xt]; ok && s.k > 0 {
+			if c, ok := y.(int64); ok {
+				switch op {
+				case token.LSS: // b*k < c  <=>  b < ceil(c/k)  <=>  b <= floor((c-1)/k)
+					return w.intBinop(token.LEQ, ii, s.base, floorDiv(c-1, s.k)), true
+				case token.LEQ:
+					return w.intBinop(token.LEQ, ii, s.base, floorDiv(c, s.k)), true
+				case token.GTR:
+					return w.intBinop(token.GTR, ii, s.base, floorDiv(c, s.k)), true
+				case token.GEQ:
+					return w.intBinop(token.GTR, ii, s.base, floorDiv(c-1, s.k)), true
+				}
+			}
+			if yt, ok := y.(*Term); ok {
+				if s2, ok := sc[yt]; ok && s2.k == s.k {
+					switch op {
+					case token.LSS, token.LEQ, token.GTR, token.GEQ:
+						return w.intBinop(op, ii, s.base, s2.base), true
+					}
+				}
+			}
+		}
+	}
+	if yt, ok := y.(*Term); ok {
+		if _, isScaled := sc[yt]; isScaled {
+			if _, ok := x.(int64); ok {
+				flip := map[token.Token]token.Token{token.LSS: token.GTR, token.LEQ: token.GEQ, token.GTR: token.LSS, token.GEQ: token.LEQ}
+				if f, ok := flip[op]; ok {
+					return w.scaledCompare(f, ii, y, x)
+				}
+			}
+		}
+	}
+	return nil, false
+}
+
 func (w *World) intBinop(op token.Token, ii intInfo, x, y Value) Value {
+	if op == token.LSS || op == token.LEQ || op == token.GTR || op == token.GEQ {
+		if v, ok := w.scaledCompare(op, ii, x, y); ok {
+			return v
+		}
+	}
 	xc, xok := x.(int64)
 	yc, yok := y.(int64)
 	if xok && yok {
